@@ -191,6 +191,40 @@ def copy_only_targets(f, local, depth=0, seen=None):
     return targets
 
 
+def closure_negates_exists(P, g, call):
+    """the closure argument of an any()/all() call returns exists(..) (False), !exists(..) (True), or something else (None)"""
+    tg = []
+    for a in call.args:
+        o = g.origin(a)
+        if o[0] == "aggr" and o[1].get("agg") == "closure":
+            tg.append(o[1]["closure"])
+        k = op_const(a)
+        if k and "closure" in k:
+            tg.append(k["closure"])
+    res = set()
+    for t in tg:
+        f = P.fns.get(t)
+        if f is None:
+            continue
+        for d in f.defs.get(0, []):
+            if d[0] != "stmt" or d[1] not in f.reach_blocks:
+                if d[0] == "call" and strip_generics(d[2].path) in EXIST_CHECKS:
+                    res.add(False)
+                continue
+            rv = d[3]
+            if rv["k"] == "un" and rv["op"] == "Not":
+                o = f.origin(rv["a"])
+                res.add(True if (o[0] == "call" and strip_generics(o[1].path) in EXIST_CHECKS) else None)
+            elif rv["k"] == "use":
+                o = f.origin(rv["op"])
+                res.add(False if (o[0] == "call" and strip_generics(o[1].path) in EXIST_CHECKS) else None)
+            else:
+                res.add(None)
+    if len(res) == 1:
+        return next(iter(res))
+    return None
+
+
 def check(ctx):
     P = ctx.P
     S = ctx.S
@@ -477,6 +511,7 @@ def check(ctx):
                 continue
             # its 'missing' outcome returns Ok(true)
             leads = False
+            lead_outcomes = set()
             for (a, lab, (o, outcome)) in nrf.branch_edges():
                 if o[0] == "call" and o[1].bb == ck.bb:
                     for b in nrf.edge_region(a, lab):
@@ -484,6 +519,18 @@ def check(ctx):
                             rv = st.get("rv")
                             if rv and st["lhs"]["l"] == 0 and rv["k"] == "aggr" and rv.get("variant") == "Ok" and (op_const(rv["ops"][0]) or {}).get("bool") is True:
                                 leads = True
+                                lead_outcomes.add(outcome)
+            # quantifier and polarity: *one* missing file must be enough.  any(|f| !exists(f)) = true, or all(|f| exists(f)) = false
+            if leads and ck.name in ("any", "all") and strip_generics(ck.path) not in EXIST_CHECKS:
+                neg = closure_negates_exists(P, nrf, ck)
+                want = {("any", True): "true", ("all", False): "false"}.get((ck.name, neg))
+                if neg is None:
+                    leads = False
+                    why = "the closure given to %s() does not return the (possibly negated) result of an existence check" % ck.name
+                elif want is None or lead_outcomes != {want}:
+                    leads = False
+                    why = ("the early Ok(true) is taken when %s(|f| %sexists(f)) is %s: regeneration then needs %s, not one missing file"
+                           % (ck.name, "!" if neg else "", "/".join(sorted(lead_outcomes)), "every file to be missing" if ck.name == "any" else "a different condition"))
             if leads:
                 good = True
                 r2.ok("%s: %s governs an early Ok(true) before the digest comparison" % (short_path(nrf.id), short_path(ck.best)))
@@ -640,8 +687,23 @@ def constant_field(P, adt, name):
                         vals.add(o[1].get("variant"))
                     else:
                         vals.add("<computed>")
+    # ... and the field is never assigned afterwards (`c.message = parse(..)`), directly or through a `&mut` borrow
+    def is_field(pl):
+        pj = (pl or {}).get("p", [])
+        return bool(pj) and pj[-1]["k"] == "field" and pj[-1].get("adt") == adt and pj[-1].get("name") == name
+    for f in P.fns.values():
+        if "{promoted#" in f.id or f.id.startswith("<tauri_typegen::models::"):
+            continue
+        for blk in f.blocks:
+            for st in blk["stmts"]:
+                rv = st.get("rv")
+                if is_field(st.get("lhs")) or (rv and rv["k"] == "ref" and rv.get("mut") and is_field(rv.get("place"))):
+                    return None
+            t = blk["term"]
+            if t["k"] == "call" and is_field(t.get("dest")):
+                return None
     if n and vals == {"None"}:
-        return "%d sites, always None" % n
+        return "%d sites, always None, never assigned" % n
     return None
 
 
